@@ -1,6 +1,6 @@
 ---------------------------- MODULE InputModel_MC ----------------------------
 EXTENDS InputModel, Json, IOUtils, SequencesExt
-AllDefaults == {"nodefault", "nodefault_unmapped", "nodefault_enum", "nodefault_object", "int", "float", "float_int", "string", "string_quotes", "bool", "null", "enum", "enum_keyword",
+AllDefaults == {"nodefault", "nodefault_unmapped", "nodefault_enum", "nodefault_object", "nodefault_list_nullable_items", "nodefault_nested_list", "int", "float", "float_int", "string", "string_quotes", "bool", "null", "enum", "enum_keyword",
                 "id_int", "id_string", "list", "empty_list", "nested_list", "list_null_item", "object", "object_enum",
                 "object_list", "object_object", "list_of_objects", "custom_scalar",
                 "object_null_entry", "list_of_objects_null_entry", "object_nested_default",
